@@ -1,7 +1,7 @@
 """C11 — cloning and field transfer (copy_legal / move_legal) preserve message content."""
 from vlib import build as B
 from vlib import codecgen as G
-from vlib.core import Case
+from vlib.core import Case, run_lines as core_run_lines
 
 ID = "C11"
 LEVEL = "proof"
@@ -16,7 +16,8 @@ LEVEL_TEXT = ("see coq/Props/Properties_C11.v: for every source object whose _po
               "equal in content and encoding and leaves null pointers, the present bits and an empty _pos in the source; "
               "every field object of a copy keeps its (output precision, value) state, so it renders like the original. "
               "Kernel-checked counter-examples for the hypotheses that are dropped (arrival-order _pos, equal positions, "
-              "_unknown, missing group entry in move_legal).")
+              "_unknown); positive witnesses for the two repaired defects (zero-count group in move_legal, group object "
+              "missing in the copy_legal target).")
 LEVEL_NOTE = ("Trusted: Coq kernel, extraction (ExtrOcamlBasic), the hand transcription in coq/C11/Copy.v and coq/Codec "
               "(checked by the correspondence run), harness/h_c11.cpp + harness/meta_dump.hpp, the OCaml driver's parsers, "
               "vlib generators.")
@@ -41,7 +42,9 @@ RULE = ("messages generated from the dumped metadata (every message type, mandat
         "0..3 elements nested to the schema's depth, random insertion order) run through CLONE / COPY / MOVE on the real "
         "objects; the same messages serialised in schema order and in shuffled-but-valid token order, decoded by "
         "Message::factory, then cloned / copied / moved (DCLONE / DCOPY / DMOVE); unpositioned user fields in both insertion "
-        "orders; zero-count group fields; permissive decodes with pass-through bytes; API-built float fields with an "
+        "orders; zero-count group fields; permissive decodes with pass-through bytes; MOVE of built and decoded sources "
+        "with (nested) groups into SHALLOW-constructed targets (SMOVE / DSMOVE: move_legal's add_group branch) and COPY of "
+        "element-free sources into shallow targets; API-built float fields with an "
         "explicit output precision 0..9 at top level and inside nested group elements (values whose rendering depends on "
         "the precision). "
         "non-trivial = every stage OK and at least 8 fields in the source; distinct = distinct case lines")
@@ -64,6 +67,13 @@ def build(tier):
     built = dict(built)
     built["exes"] = exes
     built["impl"] = [exes[schemas(tier)[0]]]
+    import os
+    d = os.path.join(B.CACHE, "codec")
+    os.makedirs(d, exist_ok=True)
+    built["rtable"] = os.path.join(d, "c11-render-%d.txt" % os.getpid())
+    open(built["rtable"], "w").close()
+    built["driver_args"] = list(built["driver_args"]) + ["rtable=" + built["rtable"]]
+    _state["rendered"] = {}
     _state["built"] = built
     return built
 
@@ -82,6 +92,7 @@ def run_impl(built, cases, tier):
                                   "detect_stack_use_after_return=0:symbolize=0")
     os.environ["UBSAN_OPTIONS"] = "print_stacktrace=0:halt_on_error=1:symbolize=0"
     try:
+        _render_table(built, [cases[k] for k in have], default)
         out = G.run_impl_multi(built, [cases[k] for k in have], tier, per_case_timeout=90)
     finally:
         for k, v in saved.items():
@@ -92,6 +103,43 @@ def run_impl(built, cases, tier):
     for k, r in zip(have, out):
         res[k] = r
     return res
+
+
+def _marked(fs, out):
+    for f in fs:
+        if len(f.val) >= 3 and f.val[:1] == b"~" and f.val[2:3] == b"~" and f.val[1:2].isdigit():
+            out.add((f.fnum, f.val))
+        for e in f.elems or ():
+            _marked(e, out)
+
+
+def _render_table(built, cases, default):
+    """REAL renderings (harness op RENDER: print() of a fresh, never copied field) of the API-built
+    float states "~p~text" occurring in the cases, appended to the driver's table file."""
+    todo = {}
+    for c in cases:
+        schema, rest = G.schema_of(c.line, default)
+        w = rest.split(" ")
+        if w[0] not in OPS + ("SCOPY", "SMOVE"):
+            continue
+        try:
+            mt, h, b, t = G.parse_msg(w[1])
+        except Exception:
+            continue
+        found = set()
+        for fs in (h, b, t):
+            _marked(fs, found)
+        for fnum, val in found:
+            if val not in _state["rendered"]:
+                todo.setdefault(schema, {})[val] = fnum
+    for schema, items in todo.items():
+        pairs = sorted(items.items())
+        out = core_run_lines([built["exes"][schema]], ["RENDER %d %s" % (f, v.hex()) for v, f in pairs])
+        with open(built["rtable"], "a") as fh:
+            for (v, f), r in zip(pairs, out):
+                if r.startswith("OK "):
+                    _state["rendered"][v] = r[3:]
+                    fh.write("%s %s\n" % (v.hex(), r[3:]))
 
 
 def postprocess(case, r):
@@ -231,6 +279,24 @@ def gen_cases(rng, tier):
             w = wire(meta, mt, ordered(meta, "header", h), ordered(meta, mt, b), ordered(meta, "trailer", t),
                      extra_tail=[b"%d=%s" % (rng.choice((20000, 30001, 29999)), G.gen_string(rng, eq=False))])
             three_dec(w, "unknown-passthrough", mode="p")
+        # SHALLOW-constructed targets (create_msg(type, false)): the body has no pre-created group
+        # objects, move_legal attaches the source's groups through its add_group branch; copy_legal
+        # creates them (find_add_group, /repo 6620c2f)
+        noel = G.MsgGen(meta, rng, p_opt=0.3, max_elems=0)
+        for j in range(40 * k):
+            msg = (rich if j % 2 else gen).message(rng.choice(grouped), max_wire=5000)
+            cs.append(Case(px + "SMOVE " + G.ser_msg(*msg), "shallow-move"))
+            cs.append(Case(px + "DSMOVE s " + wire_of(meta, msg).hex(), "shallow-move-decoded"))
+            if j % 2 == 0:
+                # since /repo 6620c2f copy_legal creates the target's missing group objects itself
+                cs.append(Case(px + "SCOPY " + G.ser_msg(*msg), "shallow-copy-groups"))
+                cs.append(Case(px + "DSCOPY s " + wire_of(meta, msg).hex(), "shallow-copy-groups-decoded"))
+        for _ in range(10 * k):
+            cs.append(Case(px + "SMOVE " + G.ser_msg(*gen.message()), "shallow-move"))
+        for _ in range(12 * k):
+            msg = noel.message()
+            cs.append(Case(px + "SCOPY " + G.ser_msg(*msg), "shallow-copy"))
+            cs.append(Case(px + "DSCOPY s " + wire_of(meta, msg).hex(), "shallow-copy-decoded"))
         # API-built float fields with an explicit output precision 0..9 (Field<fp_type,N>(value, p)):
         # the copy must render like the original.  Value texts "~p~<decimal>" (see harness make_field /
         # coq/C11/Precision.v), decimals chosen so that the rendering depends on the precision.
@@ -429,7 +495,7 @@ def c_move_nogroup(case, r, m):
     a decoded source holding a group count field with value 0 whose group object was therefore never
     created (body groups: the decoded body is shallow; header groups the deep constructor omits)."""
     meta, w = _ctx_of(case)
-    if w[0] != "DMOVE" or r != "CRASH":
+    if w[0] not in ("DMOVE", "DSMOVE") or r != "CRASH":
         return False
     data = bytes.fromhex(w[2])
     tk = [x.split(b"=", 1) for x in data.split(SOH) if b"=" in x]
@@ -461,9 +527,9 @@ def c_target_group(case, r, m):
     a source holding elements of a group that the target's deep constructor does not pre-create
     (FIX44 header, NoHops 627): to->find_group() is null and is dereferenced."""
     meta, w = _ctx_of(case)
-    if r != "CRASH" or w[0] not in ("CLONE", "COPY", "DCLONE", "DCOPY"):
+    if r != "CRASH" or w[0] not in ("CLONE", "COPY", "SCOPY", "DCLONE", "DCOPY", "DSCOPY"):
         return False
-    if w[0] in ("CLONE", "COPY"):
+    if w[0] in ("CLONE", "COPY", "SCOPY"):
         mt, hdr, body, trl = G.parse_msg(w[1])
         return (_holds_nondeep(meta, "header", hdr) or _holds_nondeep(meta, mt, body)
                 or _holds_nondeep(meta, "trailer", trl))
@@ -473,8 +539,9 @@ def c_target_group(case, r, m):
     return any(k.isdigit() and int(k) in tags and v.strip(b"0") != b"" for k, v in tk)
 
 
-CLASSIFIERS = {"unordered-positions": c_unordered, "unknown-dropped": c_unknown, "move-missing-group": c_move_nogroup,
-               "target-group-missing": c_target_group}
+# c_move_nogroup / c_target_group classified two defects that are repaired in /repo (1eb9e00, 198b3ea):
+# the entries are "fixed", the model follows the repaired code, the case classes stay as regression tests
+CLASSIFIERS = {"unordered-positions": c_unordered, "unknown-dropped": c_unknown}
 
 
 def nontrivial(case, r):
@@ -496,7 +563,7 @@ def shrink(case):
     """API-built cases: drop one top-level optional field / one group element at a time."""
     try:
         meta, w = _ctx_of(case)
-        if w[0] not in OPS:
+        if w[0] not in OPS + ("SCOPY", "SMOVE"):
             return []
         spec = w[-1]
         prefix = case.line[:len(case.line) - len(spec)]
